@@ -479,6 +479,7 @@ let check_call (f : string) (a : sx list) : string option =
       cmp nset_eqb show_nset (nset_of_list (List.map fst (nmap_to_list (mk_children (merkle_sx s) (hid h))))) (nset_of_list (List.map hid (seq r)))
   | "merkle", "parents", [s; h; r] ->
       cmp nset_eqb show_nset (nset_of_list (List.map fst (nmap_to_list (mk_parents (merkle_sx s) (hid h))))) (nset_of_list (List.map hid (seq r)))
+  | "serde", "op", [_; _; r] -> if r = A "ok" then None else Some ("an op does not survive the serde_json round trip: " ^ atom r)
   | "serde", _, _ -> !serde_hook f a
   | _ -> bad "unknown call %s/%d" f (List.length a)
 
